@@ -34,7 +34,7 @@ def budget(tier):
 
 WORLD = dict(offices=["G", "S", "H"], unit_types=["precinct", "county"], n_states=(1, 2), n_counties=(3, 6), n_units=(3, 7), zero_baseline_frac=0.02)
 PROFILE = dict(estimators=["nonparametric", "gaussian"], winsorize_p=0.0, outlier_models_p=0.0, n_alphas=(1, 2), max_estimands=2,
-               lambda_p=0.12, thresholds=[100, 90, 60], fixed_effects_p=0.25)
+               lambda_p=0.3, thresholds=[100, 90, 60], fixed_effects_p=0.25)
 FEED = dict(p_loss=0.02, n_foreign=(0, 1), max_polls=0)
 
 
@@ -160,7 +160,7 @@ class Checker(C.BaseChecker):
         if ub:
             out.append(self.v("retry_arguments", f"retry passes unknown arguments {ub}", **flags))
         if a["obj"] != b["obj"]:
-            out.append(self.v("retry_other_solver", f"retry after fit #{k} went to another solver object", **flags))
+            st.probes["retry_on_another_solver_object"] += 1  # allowed: the statement fixes the arguments of the retry, not the object
         if not (np.array_equal(a["x"], b["x"]) and np.array_equal(a["y"], b["y"])):
             out.append(self.v("retry_arguments", f"retry after fit #{k} used different X / y", **flags))
         for name in ("taus", "weights", "lambda_", "fit_intercept", "regularize_intercept", "n_feat_ignore_reg"):
@@ -179,8 +179,12 @@ class Checker(C.BaseChecker):
                 ef0, _ = effective(fc)
                 diff = [n for n in ("taus", "weights", "lambda_", "fit_intercept", "normalize_weights") if not same(eb0[n], ef0[n])]
                 if diff or not (np.array_equal(bc["x"], fc["x"]) and np.array_equal(bc["y"], fc["y"])):
-                    out.append(self.v("later_fit_changed", f"after the failure at fit #{k}, fit #{i} is made with different arguments than in the fault-free run: {diff or ['X/y']} "
-                                                            f"(e.g. {diff[0]}: {ef0[diff[0]]!r} vs {eb0[diff[0]]!r})" if diff else f"fit #{i} got different X/y", later=bool(i > k), **flags))
+                    st.probes["another_fit_of_the_run_made_differently_after_the_failure"] += 1
+                    # a violation only if it shows in the tables (they are compared with the reference run below); with
+                    # lambda = 0 un-normalised weights give the same solution and the statement ("the same tables") holds
+                    if self.ref.get(k_solve) is not None and self.ref[k_solve].ok and self.ref[k_solve].digest != rec.digest:
+                        out.append(self.v("later_fit_changed", f"after the failure at fit #{k}, fit #{i} is made with different arguments than in the fault-free run: {diff or ['X/y']} "
+                                                                f"(e.g. {diff[0]}: {ef0[diff[0]]!r} vs {eb0[diff[0]]!r})" if diff else f"fit #{i} got different X/y", later=bool(i > k), **flags))
                     break
         # (iii) same tables as the reference run (fit k done directly without normalisation)
         ref = self.ref.get(k_solve)
